@@ -657,6 +657,8 @@ class CE:
             gi, ln = self.dunder(v, "__getitem__"), self.dunder(v, "__len__")
             if gi is not None and ln is not None:
                 return [self.call_func(gi, [v, i], {}) for i in range(self.call_func(ln, [v], {}))]
+            if "_fields" in v.attrs and any(b.split(".")[-1] == "NamedTuple" for b in v.cls.bases):
+                return [v.attrs[nm] for nm in v.attrs["_fields"]]       # a NamedTuple is its fields, in order
             raise Unsupported(f"iteration over an instance of {v.cls.name}")
         if isinstance(v, (list, tuple, range, str, dict, set, frozenset)) or hasattr(v, "__next__"):
             return v
@@ -952,6 +954,10 @@ class CE:
         if isinstance(o, Recorder):
             if attr == "num_qubits":
                 return o.width
+            if attr not in GATE_METHODS and attr not in ("copy", "compose", "inverse", "measure_all", "barrier", "append", "remove_final_measurements", "to_gate", "to_instruction"):
+                # data attributes / introspection of a circuit (`.data`, `.count_ops`, `.depth` ...) are not modelled: a
+                # deferred method marker must never be taken for a value
+                raise Unsupported(f"circuit attribute .{attr} at {pyfacts.where(f, e)}")
             return ("recmethod", o, attr)
         if isinstance(o, tuple) and o and o[0] == "respath":
             return ("respath-method", o, attr)
@@ -963,6 +969,8 @@ class CE:
             if isinstance(o, re.Pattern) and attr in ("pattern", "groups", "flags"):
                 return getattr(o, attr)
             return ("pymethod", o, attr)
+        if isinstance(o, tuple) and o and isinstance(o[0], str) and o[0] in ("pymethod", "recmethod", "matmethod", "respath-method", "loggermethod", "lambda", "closure", "literal"):
+            raise Unsupported(f"attribute {attr} of an unevaluated method / function marker at {pyfacts.where(f, e)}")
         if isinstance(o, (str, list, dict, tuple, int, set)):
             return ("pymethod", o, attr)
         raise Unsupported(f"attribute {attr} of {type(o).__name__} at {pyfacts.where(f, e)}")
@@ -1047,6 +1055,10 @@ class CE:
                     flat.append(list(a) if isinstance(a, (range, list, tuple)) else a)
                 rec.log.append((name,) + tuple(tuple(x) if isinstance(x, list) else x for x in flat))
                 return None
+            if name == "copy" and not args:
+                r2 = Recorder(rec.width)
+                r2.log = list(rec.log)
+                return r2
             raise Unsupported(f"circuit method {name} in evaluated fragment at {pyfacts.where(f, e)}")
         if isinstance(fn, tuple) and fn and fn[0] == "respath-method":
             _, rp, name = fn
